@@ -726,6 +726,7 @@ func stubTimeSleep(ex *Exec, fn *ssa.Function, args []Value) []Value {
 	}
 	g.sleeping = true
 	ex.reschedule()
+	ex.traceResume(g)
 	return nil
 }
 
